@@ -110,6 +110,7 @@ def cp(v):
     if isinstance(v, list): return [cp(x) for x in v]
     return v
 
+EQ_FIRST_FIELD = ('ProvenPerm', 'ProvenNode', 'ProvenEqRaw')      # src/explain/wrapper/perm.rs, node.rs, src/explain/proof.rs: eq/hash look at `elem` / `eq` only
 def val_eq(a, b):
     """structural equality as a z3 Bool"""
     a, b = dd(a), dd(b)
@@ -119,6 +120,7 @@ def val_eq(a, b):
         return a == b
     if isinstance(a, int) and isinstance(b, int): return z3.BoolVal(a == b)
     if isinstance(a, Struct) and isinstance(b, Struct):
+        if a.tag in EQ_FIRST_FIELD and b.tag == a.tag: return val_eq(a.f[0], b.f[0])      # the crate's hand-written PartialEq/Hash: the wrapped element only, never the proof
         if set(a.f) != set(b.f): return z3.BoolVal(False)
         return z3.And(*[val_eq(a.f[k], b.f[k]) for k in a.f]) if a.f else z3.BoolVal(True)
     if isinstance(a, Enum) and isinstance(b, Enum):
